@@ -9,6 +9,7 @@ package sftp
 
 import (
 	"bytes"
+	"encoding/binary"
 	"fmt"
 	"io"
 	"os"
@@ -409,6 +410,20 @@ func c06FromFx(body []byte) (vfPkt, error, bool) {
 		return p, err, true
 	}
 	p.ID = raw.RequestID
+	// a raw packet passed on under another request id (a relay renumbering): the id given to MarshalPacket is the one
+	// on the wire, everything else stays byte for byte
+	if len(body) >= 5 {
+		other := raw.RequestID ^ 0x5A5A5A5A
+		if re, rerr := sshfx.ComposePacket(raw.MarshalPacket(other, nil)); rerr != nil {
+			return p, fmt.Errorf("re-marshalling the raw packet under id %d: %v", other, rerr), true
+		} else {
+			want := append([]byte(nil), body...)
+			binary.BigEndian.PutUint32(want[1:5], other)
+			if !bytes.Equal(re[4:], want) {
+				return p, fmt.Errorf("raw packet re-marshalled under id %d is %x, expected %x", other, vfTrimB(re[4:], 40), vfTrimB(want, 40)), true
+			}
+		}
+	}
 	buf := &raw.Data
 	switch p.Type {
 	case rfStatus:
